@@ -122,18 +122,43 @@ class FromBaseContract(Contract):
             return z3.Or(is_mapping(d), is_sequence(d))
 
         def mod(c):
-            return [("g", "View"), ("g", "Cell"), ("g", "Alloc")]
+            # a nested node registers the lock of its (None) lock id in its class's table
+            return [("g", "View"), ("g", "Cell"), ("g", "Alloc")] + [("g", n) for n in c.pre.g if n.startswith("LockDom:")]
+
+        def locks_monotone(c):
+            """Inv.locks: lock tables only grow (pointwise, at the lock ids of the known nodes / a Skolem id)."""
+            cl = []
+            for n in c.pre.g:
+                if not n.startswith("LockDom:"):
+                    continue
+                keys = []
+                if c.mode == "assume":
+                    for a, rec in c.pre.objs.items():
+                        if rec.tag.startswith("node") and "_filename" in rec.fields:
+                            keys.append(to_val(rec.fields["_filename"]))
+                    keys.extend(c.pre.ghost.get("skolem_res", []))
+                else:
+                    keys = [c.pre.ghost["skolem_res"][0]]
+                for k in keys:
+                    cl.append(z3.Implies(z3.Select(c.pre.g[n], k), z3.Select(c.post.g[n], k)))
+            return smt.and_(cl)
 
         def post_node(c):
             d = to_val(c.b["data"])
             r = to_val(c.result)
             a = Val.addr(r)
             pre, post = c.pre, c.post
+            if isinstance(c.result, ObjV):
+                # definition side: the constructor produced a python-side known object
+                freshcl = z3.BoolVal(c.result.addr not in pre.objs)
+            else:
+                freshcl = z3.And(smt.is_VRef(r), a >= pre.g["Alloc"], post.g["Alloc"] > a)
             out = [
-                ("C16:fresh", z3.And(smt.is_VRef(r), a >= pre.g["Alloc"], post.g["Alloc"] > a)),
+                ("C16:fresh", freshcl),
                 ("C02:view", post.sel("View", a) == bs.plain(iv(c, pre, c.b["data"]))),
                 ("frame:old-objects", below_alloc_unchanged(c, ("View", "Cell"))),
                 ("C18:family", family_of(c, a, d)),
+                ("C10:lock-tables-only-grow", locks_monotone(c)),
             ]
             return out
 
@@ -147,6 +172,9 @@ class FromBaseContract(Contract):
         def family_of(c, a, d):
             ci = c.b["cls"].ci if isinstance(c.b["cls"], ClassV) else c.pre.rec(c.b["cls"]).cls
             fd, fl = sc.family(c.eng, ci)
+            if isinstance(c.result, ObjV):
+                got = c.post.rec(c.result).cls.name
+                return z3.If(is_mapping(d), z3.BoolVal(got == fd.name), z3.BoolVal(got == fl.name))
             return z3.If(is_mapping(d), smt.ClsOf(a) == z3.IntVal(smt.tid_of(fd.name)),
                          smt.ClsOf(a) == z3.IntVal(smt.tid_of(fl.name)))
 
@@ -185,7 +213,8 @@ def below_alloc_unchanged(c, names):
                 cl.append(z3.Implies(x < pre.g["Alloc"], z3.Select(post.g[n], x) == z3.Select(pre.g[n], x)))
         return smt.and_(cl)
     x0 = pre.ghost["skolem_addr"][0]
-    return z3.Implies(x0 < pre.g["Alloc"],
+    newobjs = [z3.IntVal(a) for a in post.objs if a not in pre.objs]
+    return z3.Implies(z3.And(x0 < pre.g["Alloc"], *[x0 != a for a in newobjs]),
                       smt.and_([z3.Select(post.g[n], x0) == z3.Select(pre.g[n], x0) for n in names]))
 
 
@@ -235,7 +264,7 @@ class FromBaseMapContract(Contract):
 
     def cases(self, cx):
         def mod(c):
-            return [("g", "View"), ("g", "Cell"), ("g", "Alloc")]
+            return [("g", "View"), ("g", "Cell"), ("g", "Alloc")] + [("g", n) for n in c.pre.g if n.startswith("LockDom:")]
 
         def post(c):
             xs = to_val(c.b["xs"])
@@ -280,12 +309,12 @@ class UpdateContract(Contract):
             return is_mapping(dval(c)) if info(c)["kind"] == "dict" else is_sequence(dval(c))
 
         def mod(c):
-            return [("g", "View"), ("g", "Cell"), ("g", "Alloc")]
+            return [("g", "View"), ("g", "Cell"), ("g", "Alloc")] + [("g", n) for n in c.pre.g if n.startswith("LockDom:")]
 
         def post_ok(c):
             i = info(c)
             pre, post = c.pre, c.post
-            out = [("C02:matches", pyeq(post.sel("View", i["n"]), iv(c, pre, c.b["data"]))),
+            out = [("C02:matches", pyeq(post.sel("View", i["n"]), bs.plain(iv(c, pre, c.b["data"])))),
                    ("alloc", post.g["Alloc"] >= pre.g["Alloc"])]
             out.extend(tree_consistency(c, i))
             return out
@@ -439,7 +468,7 @@ class LoadContract(Contract):
             return z3.Not(buffered_term(c, c.pre, info(c)["root"]))
 
         def mod(c):
-            return [("g", "View"), ("g", "Cell"), ("g", "Alloc")]
+            return [("g", "View"), ("g", "Cell"), ("g", "Alloc")] + [("g", n) for n in c.pre.g if n.startswith("LockDom:")]
 
         def post_loaded(c):
             i = info(c)
@@ -539,6 +568,8 @@ def register(eng):
         eng.contracts[k + "._to_base"] = tb
     from contracts import validators as V
     V.register(eng)
+    from contracts import tree as T
+    T.register(eng)
     ld, sv = LoadContract(), SaveContract()
     lfr, str_ = LoadFromResourceContract(), SaveToResourceContract()
     for ci in P.classes.values():
